@@ -75,12 +75,13 @@ def derive(src, rec, out, k, alter=False):
             h5["events/area_um"][:] = h5["events/area_um"][:] + OWN_SHIFT
 
 
-def verify(path, rec, where, altered=False):
+def verify(path, rec, where, altered=False, fresh=None):
     """every feature of the file shows the events rec['ev']"""
     import dclab
     ev = list(rec["ev"])
     n = len(ev)
     out = []
+    fresh = altered if fresh is None else fresh
     with dclab.new_dataset(path) as ds:
         if len(ds) != n:
             out.append(("file has a wrong number of events", "%d vs %d" % (
@@ -114,6 +115,39 @@ def verify(path, rec, where, altered=False):
                                     else f, where, rec["how"]),
                                 "%s: got %s want %s" % (f, ids, ev)))
                     continue
+                # the feature's reported shape is that of the mapped data
+                fobj = ds[f] if f != "trace" else ds[f][sorted(
+                    ds[f].keys())[0]]
+                shp = getattr(fobj, "shape", None)
+                if shp is not None and (len(fobj) != n or shp[0] != n):
+                    out.append(("basin feature reports a wrong length/shape "
+                                "(%s, %s)" % ("scalar" if f in (
+                                    "deform", "area_um", "fl1_max", "frame")
+                                    else f, "mapped" if rec["how"] ==
+                                    "mapped" else "export"),
+                                "%s: len %s shape %s, %d events" % (
+                                    f, len(fobj), shp, n)))
+                if f == "contour":
+                    single = [np.asarray(ds[f][i]) for i in range(n)]
+                    cpats = {"slice": (lambda a: a[0:n:2],
+                                       single[0:n:2]),
+                             "bool mask": (lambda a: a[np.arange(n) % 2
+                                                       == 0],
+                                           single[0:n:2])}
+                    for pn, (fn, want) in cpats.items():
+                        try:
+                            got = [np.asarray(c) for c in fn(ds[f])]
+                            if len(got) != len(want) or not all(
+                                    np.array_equal(g, w)
+                                    for g, w in zip(got, want)):
+                                out.append(("access pattern '%s' differs "
+                                            "from event-wise reads (contour)"
+                                            % pn, where))
+                        except Exception as exc:
+                            out.append(("access pattern '%s' raises %s "
+                                        "(contour)" % (pn,
+                                                       type(exc).__name__),
+                                        repr(exc)[:100]))
                 # access patterns
                 if f in ("fl1_max", "image"):
                     whole = np.asarray(ds[f][:])
@@ -126,6 +160,18 @@ def verify(path, rec, where, altered=False):
                             if f == "fl1_max" else a[np.arange(0, n, 2)]}
                     for pn, fn in pats.items():
                         try:
+                            # every pattern is also the FIRST access of the
+                            # feature on a freshly opened dataset
+                            got2 = fn(whole)
+                            if fresh:
+                                with dclab.new_dataset(path) as ds2:
+                                    got2 = np.asarray(fn(ds2[f]))
+                            if not np.array_equal(got2, fn(whole)):
+                                out.append(("access pattern '%s' as first "
+                                            "access differs from the whole "
+                                            "array (%s)" % (
+                                                pn, "scalar" if f ==
+                                                "fl1_max" else f), where))
                             got = np.asarray(fn(ds[f]))
                             if not np.array_equal(got, fn(whole)):
                                 out.append(("access pattern '%s' differs "
@@ -212,6 +258,19 @@ def main(tier, seed, replay=None):
             seen.add(k)
             cases.append(c)
     cases = par.sample(cases, 4 if q else max(1, len(cases) // 20000), seed)
+    # all mapping arrays of length 1..4 (explicitly mapped basin)
+    res2 = tlc.run("MC_Basin", CFG.format(m=2 if q else 3).replace(
+        "NEXT Next", "NEXT MapNext"), workers=8, timeout=3000)
+    if not res2.ok:
+        raise tlc.TLCError("BasinSpec (maps): %s" % res2.violated)
+    ev.add_tlc("MC_Basin all mapping arrays", res2)
+    maps = []
+    for c in res2.tagged("H"):
+        k = str(c)
+        if k not in seen:
+            seen.add(k)
+            maps.append(c)
+    cases += par.sample(maps, 2 if q else 1, seed)
     root = tlc.scratch_dir("vp_c07_")
     try:
         origin = root / "origin.rtdc"
